@@ -1,6 +1,7 @@
 -- root of the library: importing every property module builds everything (`lake build ChfVerif`)
 import ChfVerif.Props.C01
 import ChfVerif.Props.C02
+import ChfVerif.Props.C03
 import ChfVerif.Props.C04
 import ChfVerif.Props.C05
 import ChfVerif.Props.C06
